@@ -16,7 +16,7 @@ package main
 //
 // The checks and the Lean model follow the code WITH the repairs build/patches/c04-1..4 and c04-7 (IsNumeric merged, FastParseFloat
 // wants a digit, Reduce lets a number beat a running string, AddSegStatsStr uses FastParseFloat, group-by avg divides by the number
-// of numeric values); the detectors of the repaired classes stay
+// of numeric values) and c04-15 (an int64 sum / range that does not fit becomes a float64); the detectors of the repaired classes stay
 // and now report a VIOLATION when one of them reproduces.
 //
 // <vals> = "-" (empty) or comma separated: i<int64> | d<decimal> (float64) | s<hex> (string) | z (field absent)
@@ -590,9 +590,12 @@ func st4Reference(vals []st4Val) *st4Ref {
 	return ref
 }
 
-// the arithmetic of every path is exact on this input: integers only (no string that some path reads as a float),
-// or the small dyadic class
+// the arithmetic of every path is exact on this input: integers only (no string that some path reads as a float) whose
+// sums cannot leave int64 (a sum that does is continued as a float64, patch c04-15: rounding granted), or the small dyadic class
 func (r *st4Ref) exactArith() bool {
+	if r.absInts.Cmp(st4Two63) >= 0 {
+		return false
+	}
 	return r.exact || !(r.anyFloat || r.hasNoDigit || r.hasNanInf || r.hasHexUnd)
 }
 
@@ -711,7 +714,7 @@ func st4CandsSeg(site string, ref *st4Ref, mergeIsNumLost bool) []st4Cand {
 	}
 	ingest := site == "foldi" || site == "mergei"
 	return []st4Cand{
-		// classes still recorded as known findings first, the repaired classes (regression detectors) after them
+		// detectors of repaired classes: a VIOLATION when one of them reproduces
 		{st4SigSumOvf, ref.absInts.Cmp(st4Two63) >= 0, "sum avg"},
 		{st4SigRangeOvf, rangeOvf, "range"},
 		{st4SigMergeIsNum, mergeIsNumLost, "sum avg split"},
